@@ -50,6 +50,13 @@ type glFunc struct {
 	// Thread: extra variables (fields reached through a pointer parameter, mapped by Env and marked in
 	// Ptr) that are threaded through like pointer parameters: declared in Args, returned first
 	Thread []string
+	// Rewrite: a statement (exact source text) about state outside the translated subset, rendered by
+	// the given Lean do-line(s) instead (e.g. an atomic store into a threaded variable)
+	Rewrite map[string]string
+	// U32BV: Go uint32 values are Lean `BitVec 32` (the model's address type) instead of `UInt32`
+	U32BV bool
+	// Libs: additional library calls for this function (callee text or "method:Name")
+	Libs map[string]glLib
 }
 
 type glUnit struct {
@@ -265,6 +272,12 @@ func (t *glTr) exprs(es []ast.Expr) ([]string, []bool) {
 }
 
 func (t *glTr) mapKind(e ast.Expr) string {
+	if ie, ok := e.(*ast.IndexExpr); ok {
+		if k := t.mapKind(ie.X); strings.HasPrefix(k, "arr-") {
+			return strings.TrimPrefix(k, "arr-")
+		}
+		return ""
+	}
 	if sel, ok := e.(*ast.SelectorExpr); ok {
 		if k, ok := t.fn.MapFields[sel.Sel.Name]; ok {
 			return k
@@ -301,12 +314,15 @@ func (t *glTr) expr(e ast.Expr) (string, bool) {
 		}
 	}
 	if ie, ok := e.(*ast.IndexExpr); ok {
-		if kind := t.mapKind(ie.X); kind != "" {
+		if kind := t.mapKind(ie.X); kind != "" && !strings.HasPrefix(kind, "arr-") {
 			m, pm := t.expr(ie.X)
 			k, pk := t.expr(ie.Index)
 			f := "Glb.Go.mapGet"
 			if kind == "zero" {
 				f = "Glb.Go.mapGetD"
+			}
+			if kind == "bool" {
+				f = "Glb.Go.mapHas"
 			}
 			return t.seq([]string{m, k}, []bool{pm, pk}, func(s []string) string { return "(" + f + " " + s[0] + " " + s[1] + ")" })
 		}
@@ -323,6 +339,9 @@ func (t *glTr) expr(e ast.Expr) (string, bool) {
 		}
 		if !t.scope[x.Name] {
 			// a package-level constant of the same file: its value is read from the source
+			if k, ok := glIotaConst(t.file, x.Name); ok {
+				return k, true
+			}
 			if v := findValue(t.file, x.Name); v != nil {
 				if c, ok := glConst(v); ok {
 					return glNum(c), true
@@ -456,6 +475,12 @@ func (t *glTr) expr(e ast.Expr) (string, bool) {
 		return c, false
 	case *ast.CallExpr:
 		return t.call(x)
+	case *ast.CompositeLit:
+		if at, ok := x.Type.(*ast.ArrayType); ok && at.Len != nil {
+			cs, ps := t.exprs(x.Elts)
+			return t.seq(cs, ps, func(s []string) string { return "[" + strings.Join(s, ", ") + "]" })
+		}
+		t.die(e, "composite literal")
 	}
 	t.die(e, "unsupported expression %T", e)
 	return "", false
@@ -480,6 +505,9 @@ func (t *glTr) call(x *ast.CallExpr) (string, bool) {
 	case "int", "int64", "byte", "uint8", "uint32":
 		if v, ok := glConst(x.Args[0]); ok {
 			ty := map[string]string{"int": "Int", "int64": "Int", "byte": "UInt8", "uint8": "UInt8", "uint32": "UInt32"}[name]
+			if name == "uint32" && t.fn.U32BV {
+				ty = "BitVec 32"
+			}
 			return "(" + glNum(v) + " : " + ty + ")", true
 		}
 	}
@@ -492,7 +520,16 @@ func (t *glTr) call(x *ast.CallExpr) (string, bool) {
 		return t.seq([]string{c}, []bool{p}, func(s []string) string { return "(Glb.Go.ToByte.toByte " + s[0] + ")" })
 	case "uint32":
 		c, p := t.expr(x.Args[0])
-		return t.seq([]string{c}, []bool{p}, func(s []string) string { return "(Glb.Go.ToU32.toU32 " + s[0] + ")" })
+		f := "Glb.Go.ToU32.toU32"
+		if t.fn.U32BV {
+			f = "Glb.Go.ToBV32.toBV32"
+		}
+		return t.seq([]string{c}, []bool{p}, func(s []string) string { return "(" + f + " " + s[0] + ")" })
+	case "make":
+		if _, ok := x.Args[0].(*ast.MapType); ok && len(x.Args) == 1 {
+			return "[]", true
+		}
+		t.die(x, "make of a non-map")
 	}
 	if name == "strconv.AppendInt" {
 		if v, ok := glConst(x.Args[2]); !ok || v.Int64() != 10 {
@@ -511,6 +548,32 @@ func (t *glTr) call(x *ast.CallExpr) (string, bool) {
 		}
 		cs, ps := t.exprs(x.Args[:3])
 		return t.seq(cs, ps, func(s []string) string { return "(Glb.Go.Lib.replaceAll " + strings.Join(s, " ") + ")" })
+	}
+	if sel, ok := x.Fun.(*ast.SelectorExpr); ok {
+		if id, ok := sel.X.(*ast.Ident); ok && t.scope[id.Name] {
+			if lib, ok := t.fn.Libs["method:"+sel.Sel.Name]; ok {
+				cs, ps := t.exprs(append([]ast.Expr{sel.X}, x.Args...))
+				c, p := t.seq(cs, ps, func(s []string) string { return "(" + lib.lean + " " + strings.Join(s, " ") + ")" })
+				if lib.pure {
+					return c, p
+				}
+				if p {
+					return c, false
+				}
+				return "(do let r ← " + c + "; r)", false
+			}
+		}
+	}
+	if lib, ok := t.fn.Libs[name]; ok {
+		cs, ps := t.exprs(x.Args)
+		c, p := t.seq(cs, ps, func(s []string) string { return "(" + lib.lean + " " + strings.Join(s, " ") + ")" })
+		if lib.pure {
+			return c, p
+		}
+		if p {
+			return c, false
+		}
+		return "(do let r ← " + c + "; r)", false
 	}
 	if lib, ok := glLibs[name]; ok {
 		cs, ps := t.exprs(x.Args)
@@ -692,6 +755,12 @@ func (t *glTr) stmt(ind int, s ast.Stmt) {
 			return
 		}
 	}
+	if rw, ok := t.fn.Rewrite[src]; ok {
+		for _, l := range strings.Split(rw, "\n") {
+			t.line(ind, "%s", l)
+		}
+		return
+	}
 	switch x := s.(type) {
 	case *ast.EmptyStmt:
 		t.line(ind, "pure ()")
@@ -865,6 +934,24 @@ func (t *glTr) ifLookup(ind int, x *ast.IfStmt) bool {
 		optCode, optPure = t.expr(ie)
 	case len(as.Lhs) == 1:
 		be, ok := x.Cond.(*ast.BinaryExpr)
+		if ok && be.Op == token.EQL && glText(be.Y) == "nil" && glText(be.X) == glText(as.Lhs[0]) && as.Tok == token.ASSIGN {
+			// if v = f(..); v == nil { A } else B   — v keeps the non-nil value afterwards
+			c, p := t.expr(as.Rhs[0])
+			v := t.fresh()
+			t.line(ind, "match %s with", glBind(c, p))
+			t.line(ind, "| none =>")
+			t.block(ind+1, x.Body.List)
+			t.line(ind, "| some %s =>", v)
+			t.line(ind+1, "%s := %s", t.nm(glText(as.Lhs[0])), v)
+			switch el := x.Else.(type) {
+			case nil:
+			case *ast.BlockStmt:
+				t.block(ind+1, el.List)
+			default:
+				t.stmt(ind+1, el)
+			}
+			return true
+		}
 		if !ok || be.Op != token.NEQ || glText(be.Y) != "nil" || glText(be.X) != glText(as.Lhs[0]) {
 			return false
 		}
@@ -1038,6 +1125,21 @@ func (t *glTr) assign(ind int, x *ast.AssignStmt) {
 		if ie, ok := l.(*ast.IndexExpr); ok && x.Tok == token.ASSIGN {
 			n := t.lhsName(ie.X)
 			if n == "" {
+				// m[a][k] = v  on an array of maps held in a threaded field
+				if inner, ok := ie.X.(*ast.IndexExpr); ok && t.mapKind(ie.X) == "bool" {
+					arr := t.lhsName(inner.X)
+					if arr == "" {
+						t.die(x, "nested store target")
+					}
+					ac, ap := t.expr(inner.Index)
+					kc, kp := t.expr(ie.Index)
+					a, k, m := t.fresh(), t.fresh(), t.fresh()
+					t.line(ind, "let %s := %s", a, glBind(ac, ap))
+					t.line(ind, "let %s := %s", k, glBind(kc, kp))
+					t.line(ind, "let %s ← Glb.Go.idx %s %s", m, t.nm(arr), a)
+					t.line(ind, "%s ← Glb.Go.setG %s %s (Glb.Go.mapPut %s %s %s)", t.nm(arr), t.nm(arr), a, m, k, vals[i])
+					continue
+				}
 				t.die(x, "store target")
 			}
 			ic, ip := t.expr(ie.Index)
@@ -1067,6 +1169,23 @@ func (t *glTr) assign(ind int, x *ast.AssignStmt) {
 // callStmt: a call whose results are dropped; pointer parameters are threaded.
 func (t *glTr) callStmt(ind int, call *ast.CallExpr) {
 	name := glText(call.Fun)
+	if name == "delete" && len(call.Args) == 2 {
+		if inner, ok := call.Args[0].(*ast.IndexExpr); ok && t.mapKind(call.Args[0]) == "bool" {
+			arr := t.lhsName(inner.X)
+			if arr == "" {
+				t.die(call, "delete target")
+			}
+			ac, ap := t.expr(inner.Index)
+			kc, kp := t.expr(call.Args[1])
+			a, k, m := t.fresh(), t.fresh(), t.fresh()
+			t.line(ind, "let %s := %s", a, glBind(ac, ap))
+			t.line(ind, "let %s := %s", k, glBind(kc, kp))
+			t.line(ind, "let %s ← Glb.Go.idx %s %s", m, t.nm(arr), a)
+			t.line(ind, "%s ← Glb.Go.setG %s %s (Glb.Go.mapDel %s %s)", t.nm(arr), t.nm(arr), a, m, k)
+			return
+		}
+		t.die(call, "delete")
+	}
 	sig, ok := glSigs[name]
 	if !ok {
 		t.die(call, "call statement of unknown function %s", name)
@@ -1130,6 +1249,9 @@ func (t *glTr) assigned(nodes ...ast.Node) []string {
 					name := t.lhsName(l)
 					if ie, ok := l.(*ast.IndexExpr); ok {
 						name = t.lhsName(ie.X)
+						if inner, ok := ie.X.(*ast.IndexExpr); ok && name == "" {
+							name = t.lhsName(inner.X)
+						}
 					}
 					if x.Tok == token.DEFINE && !t.scope[name] {
 						local[name] = true
@@ -1162,6 +1284,11 @@ func (t *glTr) assigned(nodes ...ast.Node) []string {
 					}
 				}
 			case *ast.CallExpr:
+				if glText(x.Fun) == "delete" && len(x.Args) == 2 {
+					if inner, ok := x.Args[0].(*ast.IndexExpr); ok {
+						add(t.lhsName(inner.X))
+					}
+				}
 				if sig, ok := glSigs[glText(x.Fun)]; ok {
 					for i, a := range x.Args {
 						if i < len(sig.ptr) && sig.ptr[i] {
@@ -1597,6 +1724,32 @@ func glTranslateUnit(u glUnit) {
 	facts["golean."+u.Module] = names
 }
 
+// glIotaConst: `const ( a T = iota; b; c )` — the value of a name is its position in the block.
+func glIotaConst(f *ast.File, name string) (string, bool) {
+	for _, d := range f.Decls {
+		gd, ok := d.(*ast.GenDecl)
+		if !ok || gd.Tok != token.CONST || len(gd.Specs) == 0 {
+			continue
+		}
+		first := gd.Specs[0].(*ast.ValueSpec)
+		if len(first.Values) != 1 || glText(first.Values[0]) != "iota" {
+			continue
+		}
+		for i, sp := range gd.Specs {
+			vs := sp.(*ast.ValueSpec)
+			if i > 0 && len(vs.Values) != 0 {
+				break
+			}
+			for _, n := range vs.Names {
+				if n.Name == name {
+					return strconv.Itoa(i), true
+				}
+			}
+		}
+	}
+	return "", false
+}
+
 func glIdentUsed(body *ast.BlockStmt, name string) bool {
 	found := false
 	ast.Inspect(body, func(n ast.Node) bool {
@@ -1780,6 +1933,41 @@ func extractGoLean() {
 			// field.Tag.Get("flag") and strings.ToLower(field.Name) are outside the model: parameters
 			{File: "config/config.go", Name: "parseStructFieldTag", Args: "(tag lowerName : Bytes)", Ret: "(Bytes × Bytes × Bytes)",
 				Tuples: map[string][]string{`field.Tag.Get("flag")`: {"tag"}, "strings.ToLower(field.Name)": {"lowerName"}}},
+		},
+	})
+
+	// TrFilter (C11, C12): the three methods of IPv4Filter; receiver fields are threaded variables,
+	// the atomic flag is a Bool, the lock calls are left to the interleaving model of Props/C12b
+	filterEnv := map[string]string{
+		"f.mode": "mode", "f.index": "index", "f.ipList": "ipList", "f.ipMaps": "ipMaps",
+		"cidr.IP": "ipb", "net.IPv4len": "4", "ipv4Masks": "Glb.Generated.ipv4Masks", "listSize": "(Glb.Generated.listSize : Int)",
+		"ErrInvalidIPv4CIDR": "true", "nil": "false",
+	}
+	filterPtr := map[string]bool{"f.mode": true, "f.index": true, "f.ipList": true, "f.ipMaps": true}
+	filterLibs := map[string]glLib{
+		"binary.BigEndian.Uint32": {"Glb.Go.Lib.be32", false, 1},
+		"method:To4":              {"Glb.Go.Lib.to4", true, 1},
+	}
+	locks := []string{"f.mutex.Lock()", "defer f.mutex.Unlock()", "f.mutex.RLock()", "defer f.mutex.RUnlock()"}
+	stArgs := "(matchAll : Bool) (mode : BitVec 32) (index : Int) (ipList : List (List (BitVec 32))) (ipMaps : List (List (BitVec 32 × Bool)))"
+	stRet := "(Bool × BitVec 32 × Int × List (List (BitVec 32)) × List (List (BitVec 32 × Bool)) × Bool)"
+	thread := []string{"matchAll", "mode", "index", "ipList", "ipMaps"}
+	sizeT := map[string][]string{"cidr.Mask.Size()": {"ones0", "bits0"}, "f.matchAll.Load()": {"matchAll"}}
+	glTranslate(glUnit{
+		Module: "TrFilter", NS: "Glb.Tr.Filter",
+		Imports: []string{"Glb.Generated.Filter"},
+		Funcs: []glFunc{
+			{File: "util/netutil/filter.go", Recv: "IPv4Filter", Name: "Add", Args: stArgs + " (ipb : Bytes) (ones0 bits0 : Int)", Ret: stRet,
+				Env: filterEnv, Ptr: filterPtr, Thread: thread, Tuples: sizeT, Skip: locks, U32BV: true, Libs: filterLibs,
+				MapFields: map[string]string{"ipMaps": "arr-bool"},
+				Rewrite:   map[string]string{"f.matchAll.Store(true)": "matchAll := true"}},
+			{File: "util/netutil/filter.go", Recv: "IPv4Filter", Name: "Remove", Args: stArgs + " (ipb : Bytes) (ones0 bits0 : Int)", Ret: stRet,
+				Env: filterEnv, Ptr: filterPtr, Thread: thread, Tuples: sizeT, Skip: locks, U32BV: true, Libs: filterLibs,
+				MapFields: map[string]string{"ipMaps": "arr-bool"},
+				Rewrite:   map[string]string{"f.matchAll.Store(false)": "matchAll := false"}},
+			{File: "util/netutil/filter.go", Recv: "IPv4Filter", Name: "Contains", Args: stArgs + " (ip : Bytes)", Ret: "Bool",
+				Env: filterEnv, Tuples: sizeT, Skip: locks, U32BV: true, Libs: filterLibs,
+				MapFields: map[string]string{"ipMaps": "arr-bool"}},
 		},
 	})
 }
